@@ -282,7 +282,7 @@ def runMach (P : Prog) (en : Nat → Bool) : Nat → FnRun
           -- a panicking body takes the `catch` path (`$s = -1; return <zero>`), which loses the value on resumption
           let named := (finfoOf P j).named == 1
           let kind : GV.RetDefer.RetKind (Nat × Nat) :=
-            if s.panicking then .panicZero (0, 0) (undefVal, undefVal) else .cached ((dEnv P).retv s)
+            if s.panicking then .panicZero (0, 0) (0, 0) else .cached ((dEnv P).retv s)
           match GV.RetDefer.runRetF (dEnv P) id (fun _ dd _ => dSusp P en dd) kind named
               fuelMax s (s.pend.map .fresh) 0 true 0 with
           | some (v, s', ns') =>
